@@ -30,6 +30,7 @@ def instances(tier, seed):
                 if pat == 'CH->nothing' and ra:
                     continue
                 add(f"ovl:{pat}:M2:ra={int(ra)}:ign={int(ign)}", pattern=pat, N=4, M=2, replace_all=ra, ignore=ign, cost=10)
+    add("ovl:CH->CH-moved-0.002A:M2", pattern='CH->CH-moved-0.002A', N=4, M=2, cost=10)
     add("ovl:CH->CH-moved:M2", pattern='CH->CH-moved', N=4, M=2, cost=10)
     add("ovl:CH->CF-common-atom-2e-7-apart:M2", pattern='CH->CF-common-atom-2e-7-apart', N=4, M=2, cost=10)
     add("ovl:CH->CF-ff-labels:M2", pattern='CH->CF-ff-labels', N=4, M=2, cost=10)
